@@ -183,8 +183,10 @@ def run(ctx, rep, tier):
             continue
         _b = _bs[0]
         _nt += 1
-        _ba = {swap_axis(k): v for k, v in name_bag(_a).items()}
-        _bb = name_bag(_b)
+        # comparison and logical operators do not count: an equivalent test written differently on one side is not a difference
+        _cmp = ("op<", "op<=", "op>", "op>=", "op==", "op!=", "op&&", "op||", "op!")
+        _ba = {swap_axis(k): v for k, v in name_bag(_a).items() if k not in _cmp}
+        _bb = {k: v for k, v in name_bag(_b).items() if k not in _cmp}
         if _ba == _bb:
             rep.holds("TW", _a.decl, _a, "%s/%d mirrors %s" % (_a.short, len(_a.params), _b.short), "%d distinct names/operators agree" % len(_bb))
         else:
